@@ -73,10 +73,19 @@ func c04EntryPoints() []entryPoint {
 }
 
 // follow-up operations on whatever a decoder returned
+// follow-up budget: the follow-ups must not panic; how long they take is not part of the property (re-encoding
+// a deeply nested value in gob takes time exponential in the depth on the current tree), so a step is not
+// started once the budget is used up
+var c04FollowBudget = 5 * time.Second
+
+// set per case by the parent ("nogob" flag): values nested deep enough to make the gob follow-up take minutes
+var c04SkipGob bool
+
 func c04Follow(v interface{}) string {
 	var msg string
+	t0 := time.Now()
 	step := func(name string, f func()) {
-		if msg != "" {
+		if msg != "" || time.Since(t0) > c04FollowBudget {
 			return
 		}
 		if p, m := guard(f); p {
@@ -90,7 +99,6 @@ func c04Follow(v interface{}) string {
 		step("IsNil", func() { _ = ap.IsNil(it) })
 		if !ap.IsNil(it) {
 			step("MarshalJSON", func() { _, _ = ap.MarshalJSON(it) })
-			step("GobEncode", func() { _, _ = ap.GobEncode(it) })
 			step("ItemsEqual", func() { _ = ap.ItemsEqual(it, it) })
 			step("GetID/GetType/GetLink", func() {
 				_ = it.GetID()
@@ -105,6 +113,9 @@ func c04Follow(v interface{}) string {
 			step("Recipients", func() {
 				_ = ap.OnObject(it, func(o *ap.Object) error { _ = o.Recipients(); return nil })
 			})
+			if !c04SkipGob {
+				step("GobEncode", func() { _, _ = ap.GobEncode(it) })
+			}
 		}
 		return msg
 	}
@@ -144,9 +155,11 @@ func c04RunOne(ep entryPoint, data []byte) c04Result {
 		res.R = "err"
 	} else {
 		res.R = "ok"
+	}
+	res.Ms = time.Since(t0).Milliseconds() // the decoding call alone
+	if res.R == "ok" {
 		res.Follow = c04Follow(v)
 	}
-	res.Ms = time.Since(t0).Milliseconds()
 	runtime.ReadMemStats(&ms1)
 	res.Alloc = ms1.TotalAlloc - ms0.TotalAlloc
 	return res
@@ -161,8 +174,9 @@ func c04Child() {
 		line, err := in.ReadString('\n')
 		if len(line) > 1 {
 			var idx int
-			var hx string
-			fmt.Sscanf(line, "%d %s", &idx, &hx)
+			var hx, flag string
+			fmt.Sscanf(line, "%d %s %s", &idx, &hx, &flag)
+			c04SkipGob = flag == "nogob"
 			data, _ := hex.DecodeString(hx)
 			r := c04RunOne(eps[idx], data)
 			b, _ := json.Marshal(r)
@@ -205,8 +219,8 @@ func (p *c04Proc) kill() {
 }
 
 // one case through the child, with a deadline
-func (p *c04Proc) run(idx int, data []byte, limit time.Duration) (res c04Result, dead string) {
-	fmt.Fprintf(p.in, "%d %s\n", idx, hex.EncodeToString(data))
+func (p *c04Proc) run(idx int, data []byte, limit time.Duration, flags ...string) (res c04Result, dead string) {
+	fmt.Fprintf(p.in, "%d %s %s\n", idx, hex.EncodeToString(data), strings.Join(flags, ","))
 	type ans struct {
 		line string
 		err  error
@@ -347,6 +361,15 @@ func c04ReplaceValue(r *RNG, v interface{}, depth int) interface{} {
 	return atom()
 }
 
+// a list with two equal members, each nesting its own kind `depth` levels deep through one property
+func c04Twin(typ, prop, pos string, depth int) []byte {
+	x := fmt.Sprintf(`{"id":"https://example.com/t/0","type":%q}`, typ)
+	for k := 1; k <= depth; k++ {
+		x = fmt.Sprintf(`{"id":"https://example.com/t/%d","type":%q,%q:%s}`, k, typ, prop, x)
+	}
+	return []byte(`{"type":"OrderedCollection","id":"https://example.com/c",` + fmt.Sprintf("%q", pos) + `:[` + x + `,` + x + `]}`)
+}
+
 func c04Deep(n int, open, close string, core string) []byte {
 	return []byte(strings.Repeat(open, n) + core + strings.Repeat(close, n))
 }
@@ -432,7 +455,7 @@ func c04TextModelled(name string, data []byte) interface{} {
 func init() {
 	campaigns["C04"] = func(c *Ctx) {
 		eps := c04EntryPoints()
-		c.Rule = fmt.Sprintf("%d decode entry points found by reflection (package-level UnmarshalJSON/GobDecode; UnmarshalJSON, UnmarshalText, GobDecode, UnmarshalBinary of the 14 vocabulary structs and 12 leaf types). Inputs: empty, all 256 one-byte strings, 38 hand-picked JSON atoms and mistyped documents, nesting to depth 5k-200k of arrays, objects and strings-of-backslashes, 10^5-10^6-digit numbers and strings; every ordered pair of the vocabulary's 55 type names as neighbours in one decoded list; 54 hostile scalars (padded signs, partial durations and instants, non-numbers) as string and as raw value under each of 16 typed terms; the repository mocks and harness-written documents with structure-aware mutations (truncation, value replaced by another kind, byte flip, duplicated/deleted chunk, array wrapping, non-UTF-8, brace swaps); valid gob streams of generated values with truncation, byte flips, length bombs, random bytes. Every call runs in a child process with a deadline; a panic, a dead or silent child, more than 2 s, or allocation beyond 64 MiB + 400 x input size is a failure; every returned value then goes through MarshalJSON, GobEncode, ItemsEqual(v,v), accessors, Format, Flatten, Recipients under recover. Correspondence: the three hand-written text unmarshalers against their Lean models with an explicit panic outcome, exhaustively on all strings of length <= 3 over {quote, backslash, a} plus random strings.", len(eps))
+		c.Rule = fmt.Sprintf("%d decode entry points found by reflection (package-level UnmarshalJSON/GobDecode; UnmarshalJSON, UnmarshalText, GobDecode, UnmarshalBinary of the 14 vocabulary structs and 12 leaf types). Inputs: empty, all 256 one-byte strings, 38 hand-picked JSON atoms and mistyped documents, nesting to depth 5k-200k of arrays, objects and strings-of-backslashes, 10^5-10^6-digit numbers and strings; every ordered pair of the vocabulary's 55 type names as neighbours in one decoded list; two equal members of one list each nesting its own kind 20-26 levels deep through each of 40 item-valued properties (16 type names: the comparison made while decoding must not double per level); 54 hostile scalars (padded signs, partial durations and instants, non-numbers) as string and as raw value under each of 16 typed terms; the repository mocks and harness-written documents with structure-aware mutations (truncation, value replaced by another kind, byte flip, duplicated/deleted chunk, array wrapping, non-UTF-8, brace swaps); valid gob streams of generated values with truncation, byte flips, length bombs, random bytes. Every call runs in a child process with a deadline; a panic, a dead or silent child, more than 2 s, or allocation beyond 64 MiB + 400 x input size is a failure; every returned value then goes through MarshalJSON, GobEncode, ItemsEqual(v,v), accessors, Format, Flatten, Recipients under recover. Correspondence: the three hand-written text unmarshalers against their Lean models with an explicit panic outcome, exhaustively on all strings of length <= 3 over {quote, backslash, a} plus random strings.", len(eps))
 		proc, err := c04Start()
 		if err != nil {
 			c.Fail("C04/harness", "cannot start the child: "+err.Error(), nil)
@@ -441,6 +464,7 @@ func init() {
 		defer func() { proc.kill() }()
 		limit := 20 * time.Second
 		deaths := 0
+		twinDeaths := 0
 		runCase := func(idx int, data []byte, tag string) {
 			if deaths >= 3 {
 				c.Tag("skipped-after-3-deaths")
@@ -452,7 +476,19 @@ func init() {
 			}
 			c.Count(map[string]interface{}{"ep": idx, "h": hx(data[:minInt(len(data), 64)]), "n": len(data)}, true)
 			c.Tag(tag)
-			res, dead := proc.run(idx, data, limit)
+			var flags []string
+			if strings.HasPrefix(tag, "twins/") {
+				flags = append(flags, "nogob")
+			}
+			res, dead := proc.run(idx, data, limit, flags...)
+			if dead != "" && strings.HasPrefix(tag, "twins/") {
+				// one class per (type, property) of the nested twins: a slow pair is one finding, not the entry point's
+				c.Fail("C04/"+tag, eps[idx].name+": "+dead+" on "+fmt.Sprint(len(data))+" bytes", in)
+				twinDeaths++
+				proc.kill()
+				proc, _ = c04Start()
+				return
+			}
 			if dead != "" {
 				c.Fail("C04/dead:"+eps[idx].name, eps[idx].name+": "+dead, in)
 				deaths++
@@ -466,6 +502,8 @@ func init() {
 				c.Fail("C04/panic:"+eps[idx].name, eps[idx].name+" "+res.R, in)
 			case res.Follow != "":
 				c.Fail("C04/follow:"+eps[idx].name, eps[idx].name+" returned a value on which "+res.Follow+" panics", in)
+			case res.Ms > 2000 && strings.HasPrefix(tag, "twins/"):
+				c.Fail("C04/"+tag, fmt.Sprintf("%s took %d ms on %d bytes", eps[idx].name, res.Ms, len(data)), in)
 			case res.Ms > 2000:
 				c.Fail("C04/slow:"+eps[idx].name, fmt.Sprintf("%s took %d ms on %d bytes", eps[idx].name, res.Ms, len(data)), in)
 			case res.Alloc > 64<<20+400*uint64(len(data)):
@@ -519,6 +557,56 @@ func init() {
 				}
 				doc := fmt.Sprintf(`{"type":"OrderedCollection","id":"https://example.com/c","orderedItems":[{"type":%q,"id":"https://example.com/1"},{"type":%q,"id":"https://example.com/2","name":"x"},{"type":%q,"id":"https://example.com/1"}]}`, a, b, a)
 				runCase(0, []byte(doc), "type-pairs")
+			}
+		}
+		// 2b'. two equal members of one list, each nesting the same kind of value `d` levels deep through one
+		// property: decoding compares the members (Append -> Contains -> ItemsEqual), and the comparison must
+		// stay proportional to the document (a comparison that visits a property twice per level doubles per level)
+		// The oracle is the growth rate, not a wall-clock budget alone: the decoding time at depth d+4 against the
+		// time at depth d (x16 when the work doubles per level, x1.3 when it is proportional); a pair is run again
+		// before it is reported, and only times above 40 ms count (timer and collector noise).
+		twin := c04Twin
+		d1, d2 := c.N(12, 14), c.N(16, 18)
+		for _, typ := range []string{"Create", "Person", "Note", "OrderedCollection", "Collection", "CollectionPage", "OrderedCollectionPage", "Question", "Arrive", "Activity", "Actor", "Object", "Place", "Tombstone", "Relationship", "Profile"} {
+			for _, prop := range []string{"attachment", "inReplyTo", "context", "object", "actor", "target", "result", "origin", "instrument", "inbox", "first", "last", "current", "next", "prev", "partOf", "items", "orderedItems", "oneOf", "anyOf", "tag", "preview", "replies", "likes", "shares", "attributedTo", "audience", "to", "generator", "icon", "image", "location", "url",
+				"outbox", "followers", "following", "liked", "streams", "subject", "relationship", "describes"} {
+				for _, pos := range []string{"tag", "orderedItems"} {
+					tag := "twins/" + typ + "." + prop
+					measure := func(depth int) (int64, string) {
+						data := twin(typ, prop, pos, depth)
+						c.Count(map[string]interface{}{"ep": 0, "h": hx(data[:64]), "n": len(data), "twin": tag + "@" + pos}, true)
+						c.Tag("twins")
+						best := int64(-1)
+						for try := 0; try < 2; try++ {
+							res, dead := proc.run(0, data, limit, "nogob")
+							if dead != "" {
+								proc.kill()
+								proc, _ = c04Start()
+								return 1 << 40, dead
+							}
+							if strings.HasPrefix(res.R, "panic") || res.Follow != "" {
+								c.Fail("C04/panic:UnmarshalJSON", "UnmarshalJSON "+res.R+" "+res.Follow, map[string]interface{}{"ep": "UnmarshalJSON", "hex": hex.EncodeToString(data)})
+							}
+							if best < 0 || res.Ms < best {
+								best = res.Ms
+							}
+							if res.Ms < 40 {
+								break
+							}
+						}
+						return best, ""
+					}
+					t1, _ := measure(d1)
+					t2, dead := measure(d2)
+					if t2 >= 40 && t2 > 6*maxInt64(t1, 1) {
+						data := twin(typ, prop, pos, d2)
+						what := fmt.Sprintf("UnmarshalJSON: two equal %s members of one list, nested through %q: %d ms at depth %d (%d bytes) against %d ms at depth %d - the work multiplies with every level", typ, prop, t2, d2, len(data), t1, d1)
+						if dead != "" {
+							what = fmt.Sprintf("UnmarshalJSON: two equal %s members of one list, nested %d deep through %q (%d bytes): %s", typ, d2, prop, len(data), dead)
+						}
+						c.Fail("C04/"+tag, what, map[string]interface{}{"ep": "UnmarshalJSON", "hex": hex.EncodeToString(data), "twin": []interface{}{typ, prop, pos, d1, d2}})
+					}
+				}
 			}
 		}
 		// 2c. hostile scalars in every typed position
@@ -619,6 +707,35 @@ func init() {
 		if err := json.Unmarshal(input, &in); err != nil {
 			return "bad replay input"
 		}
+		if tw := asList(in["twin"]); len(tw) == 5 {
+			proc, err := c04Start()
+			if err != nil {
+				return "cannot start child"
+			}
+			defer func() { proc.kill() }()
+			typ, prop, pos := tw[0].(string), tw[1].(string), tw[2].(string)
+			measure := func(depth int) int64 {
+				best := int64(-1)
+				for try := 0; try < 2; try++ {
+					res, dead := proc.run(0, c04Twin(typ, prop, pos, depth), 20*time.Second, "nogob")
+					if dead != "" {
+						proc.kill()
+						proc, _ = c04Start()
+						return 1 << 40
+					}
+					if best < 0 || res.Ms < best {
+						best = res.Ms
+					}
+				}
+				return best
+			}
+			d1, d2 := int(num(tw[3])), int(num(tw[4]))
+			t1, t2 := measure(d1), measure(d2)
+			if t2 >= 40 && t2 > 6*maxInt64(t1, 1) {
+				return fmt.Sprintf("UnmarshalJSON: two equal %s members nested through %q: %d ms at depth %d against %d ms at depth %d", typ, prop, t2, d2, t1, d1)
+			}
+			return ""
+		}
 		hxs, ok := in["hex"].(string)
 		if !ok {
 			return "" // generated oversize input: not replayable from the record
@@ -654,6 +771,13 @@ func init() {
 
 func minInt(a, b int) int {
 	if a < b {
+		return a
+	}
+	return b
+}
+
+func maxInt64(a, b int64) int64 {
+	if a > b {
 		return a
 	}
 	return b
